@@ -144,7 +144,7 @@ def presum_nest(stmt, sparse):
     if sparse:
         # elif skew[a, b] > cutoff: break     (loop-skipping, not modelled)
         if not (len(cond.orelse) == 1 and isinstance(cond.orelse[0], ast.If)
-                and _src(cond.orelse[0].test) == "skew[a, b] > cutoff"
+                and ocmp(cond.orelse[0].test)
                 and len(cond.orelse[0].body) == 1
                 and isinstance(cond.orelse[0].body[0], ast.Break)
                 and not cond.orelse[0].orelse):
@@ -235,15 +235,14 @@ def sparse_nest(stmt):
         bad(fc, "sparse loop c")
     skip = fc.body[0]
     if not (isinstance(skip, ast.If) and not skip.orelse and len(skip.body) == 1
-            and isinstance(skip.body[0], ast.Break)
-            and _src(skip.test) == "skew[a, b] - skew[c, nrows - 1] <= -cutoff"):
+            and isinstance(skip.body[0], ast.Break) and ocmp(skip.test)):
         bad(skip, "sparse skip over c")
     fd = fc.body[1]
     if not is_range(fd, "d", "range(d_min, nrows)") or len(fd.body) != 2 \
             or _src(fd.body[0]) != "dskew = skew[a, b] - skew[c, d]":
         bad(fd, "sparse loop d")
     br = fd.body[1]
-    if not (isinstance(br, ast.If) and _src(br.test) == "-dskew > cutoff"
+    if not (isinstance(br, ast.If) and ocmp(br.test)
             and [_src(x) for x in br.body] == ["d_min = d"] and len(br.orelse) == 1):
         bad(br, "sparse d_min device")
     keep = br.orelse[0]
@@ -251,7 +250,7 @@ def sparse_nest(stmt):
             and len(keep.orelse) == 1):
         bad(keep, "sparse kept branch")
     last = keep.orelse[0]
-    if not (isinstance(last, ast.If) and _src(last.test) == "dskew >= cutoff"
+    if not (isinstance(last, ast.If) and ocmp(last.test)
             and len(last.body) == 1 and isinstance(last.body[0], ast.Break)
             and not last.orelse):
         bad(last, "sparse break")
@@ -490,6 +489,130 @@ End GenBasis.
 """ % b
 
 
+# ----------------------------------- loop-skipping devices of sparse kernels
+def oexpr(node):
+    """expression over the ordered field of skew values / cutoff."""
+    if isinstance(node, ast.Name) and node.id in ("cutoff", "dskew"):
+        return node.id
+    if isinstance(node, ast.UnaryOp) and isinstance(node.op, ast.USub):
+        return "(- %s)" % oexpr(node.operand)
+    if isinstance(node, ast.BinOp) and isinstance(node.op, ast.Sub):
+        return "(%s - %s)" % (oexpr(node.left), oexpr(node.right))
+    if isinstance(node, ast.Call) and _src(node.func) == "fabs" and len(node.args) == 1:
+        return "`|%s|" % oexpr(node.args[0])
+    if isinstance(node, ast.Subscript) and _src(node.value) == "skew" \
+            and isinstance(node.slice, ast.Tuple) and len(node.slice.elts) == 2:
+        ix = []
+        for e in node.slice.elts:
+            if isinstance(e, ast.Name) and e.id in "abcd":
+                ix.append(e.id)
+            elif _src(e) == "nrows - 1":
+                ix.append("nrows.-1")
+            elif isinstance(e, ast.Constant) and e.value == 0 and not isinstance(e.value, bool):
+                ix.append("0%N")
+            else:
+                bad(e, "skew index")
+        return "(skew %s %s)" % tuple(ix)
+    bad(node, "ordered expression")
+
+
+def ocmp(test):
+    if isinstance(test, ast.Compare) and len(test.ops) == 1:
+        op = {ast.Lt: "<", ast.LtE: "<=", ast.Gt: ">", ast.GtE: ">="}.get(type(test.ops[0]))
+        if op:
+            return "%s %s %s" % (oexpr(test.left), op, oexpr(test.comparators[0]))
+    bad(test, "comparison")
+
+
+def tx_sparse_loops(txt, name, cross):
+    """conditions of the skipping devices, read from the AST (the loop
+    skeleton itself is the one accepted by presum_nest / sparse_nest)."""
+    params, body = kernel_source(txt, name)
+    i, _ = prologue(body, cross, name)
+    rest = body[i:]
+    presum_nest(rest[0], True)
+    sparse_nest(rest[1])
+    pcond = rest[0].body[0].body[0]                 # if fabs(skew[a,b]) < cutoff ... elif ...
+    fc = rest[1].body[0].body[1]                    # for c
+    fd = fc.body[1]
+    br = fd.body[1]
+    keep = br.orelse[0]
+    last = keep.orelse[0]
+    return {"pre_keep": ocmp(pcond.test), "pre_break": ocmp(pcond.orelse[0].test),
+            "skip_c": ocmp(fc.body[0].test), "dskew": oexpr(fd.body[0].value),
+            "dmin": ocmp(br.test), "keep": ocmp(keep.test), "brk": ocmp(last.test)}
+
+
+SPARSE_TMPL = """(* GENERATED by tools/tx_c07_kernels.py from qutip/core/_brtensor.pyx - do not edit.
+   The loop-skipping devices of _br_term_sparse / _br_cterm_sparse (identical
+   in both kernels) as executable loops over an ordered field of skew values:
+     for c in range(nrows): if <skip_c>: break
+       for d in range(d_min, nrows): dskew = ...;
+         if <dmin>: d_min = d  elif <keep>: emit (c, d)  elif <brk>: break
+   and the pre-sum loop  for b in range(nrows-1, -1, -1):
+         if <pre_keep>: compute  elif <pre_break>: break                      *)
+From mathcomp Require Import all_ssreflect all_algebra.
+Set Implicit Arguments. Unset Strict Implicit. Unset Printing Implicit Defensive.
+Import GRing.Theory Num.Theory.
+Local Open Scope ring_scope.
+
+Section GenSparseLoops.
+Variable F : realDomainType.
+Variable cutoff : F.
+Variable nrows : nat.
+Variable skew : nat -> nat -> F.
+
+Section AB.
+Variables a b : nat.
+
+Fixpoint gen_sparse_loop_d (c d fuel d_min : nat) : seq nat * nat :=
+  if fuel is fuel'.+1 then
+    let dskew := %(dskew)s in
+    if %(dmin)s then gen_sparse_loop_d c d.+1 fuel' d
+    else if %(keep)s then
+      let: (l, m) := gen_sparse_loop_d c d.+1 fuel' d_min in (d :: l, m)
+    else if %(brk)s then ([::], d_min)
+    else gen_sparse_loop_d c d.+1 fuel' d_min
+  else ([::], d_min).
+
+Fixpoint gen_sparse_loop_c (c fuel d_min : nat) : seq (nat * nat) :=
+  if fuel is fuel'.+1 then
+    if %(skip_c)s then [::]
+    else
+      let: (l, m) := gen_sparse_loop_d c d_min (nrows - d_min) d_min in
+      [seq (c, d) | d <- l] ++ gen_sparse_loop_c c.+1 fuel' m
+  else [::].
+
+Definition gen_sparse_kept : seq (nat * nat) := gen_sparse_loop_c 0 nrows 0.
+End AB.
+
+Fixpoint gen_sparse_presum_loop (a : nat) (fuel : nat) : seq nat :=
+  if fuel is b.+1 then
+    if %(pre_keep)s then b :: gen_sparse_presum_loop a b
+    else if %(pre_break)s then [::]
+    else gen_sparse_presum_loop a b
+  else [::].
+Definition gen_sparse_presum_computed (a : nat) : seq nat := gen_sparse_presum_loop a nrows.
+End GenSparseLoops.
+"""
+
+
+def generate_sparse(path=None):
+    txt = open(os.path.join(vlib.REPO, "qutip/core/_brtensor.pyx")).read()
+    c1 = tx_sparse_loops(txt, "_br_term_sparse", False)
+    c2 = tx_sparse_loops(txt, "_br_cterm_sparse", True)
+    if c1 != c2:
+        raise Unsupported("the skipping devices of _br_term_sparse and _br_cterm_sparse differ: "
+                          "%r vs %r" % (c1, c2))
+    out = SPARSE_TMPL % c1
+    p = path or os.path.join(vlib.COQ, "Gen", "C07_sparse.v")
+    old = open(p).read() if os.path.exists(p) else None
+    if old != out:
+        with open(p, "w") as f:
+            f.write(out)
+    return c1
+
+
 # ----------------------------------------------------------------- emission
 HEADER = """(* GENERATED by tools/tx_c07_kernels.py from qutip/core/_brtensor.pyx - do not edit.
    Loop kernels of the Bloch-Redfield tensor as MathComp definitions.
@@ -576,6 +699,8 @@ def emit(ks, masks, extra):
 
 
 def generate(path=None):
+    if path is None:
+        generate_sparse()
     ks, masks, cdata = translate()
     txt = emit(ks, masks, cdata)
     p = path or os.path.join(vlib.COQ, "Gen", "C07_kernels.v")
